@@ -13,6 +13,18 @@ import TetlProofs.C06.Fill
 import TetlProofs.C06.Merge
 import TetlProofs.C06.StablePartition
 import TetlProofs.C06.Numeric
+import TetlProofs.C06.Copy
+import TetlProofs.C06.Unique
+import TetlProofs.C06.Partition
+import TetlProofs.C06.Search
+import TetlProofs.C06.Gnome
+import TetlProofs.C06.Bubble
+import TetlProofs.C06.Insertion
+import TetlProofs.C06.MinMax
+import TetlProofs.C06.SetLoops
+import TetlProofs.C06.SetSpec
+import TetlProofs.C06.IsPerm
+import TetlProofs.C06.MergeSort
 namespace Tetl.C06.Props
 open Tetl Tetl.C06
 variable {α : Type}
@@ -505,5 +517,312 @@ theorem adjacentDifference_eq (op : α → α → α) (P R S : List α) :
     simp only [Bool.false_eq_true, if_false]
     rw [hrd, ok_bind, show P.length + (x :: xs).length - P.length - 1 = xs.length from by simp, hloop]
     rfl
+
+/-! ## copy / move / copy_backward / move_backward inside one storage (overlap allowed where the standard defines it) -/
+
+/-- `copy` / `move` (moving an int-like element is a copy): the destination `[d, d+(l-f))` receives the ORIGINAL
+    source elements, everything else is unchanged, returns the end of the destination.  Precondition
+    [alg.copy]: `d ∉ [f,l)` — the destination may overlap the source from the left. -/
+theorem copy_eq (a : List α) (f l d : Nat) (hfl : f ≤ l) (hl : l ≤ a.length) (hd : d + (l - f) ≤ a.length)
+    (hov : d ≤ f ∨ l ≤ d) :
+    copy a f l d = .ok (splice a d (d + (l - f)) (slice a f l), d + (l - f)) :=
+  copy_spec a f l d hfl hl hd hov
+example : (1 ≤ 3 ∧ 3 ≤ [1, 2, 3, 4].length ∧ 0 + (3 - 1) ≤ [1, 2, 3, 4].length ∧ (0 ≤ 1 ∨ 3 ≤ 0)) := by decide
+
+/-- `copy_backward` / `move_backward`; precondition [alg.copy]: `dLast ∉ (f,l]` — the destination may overlap the
+    source from the right -/
+theorem copyBackward_eq (a : List α) (f l dLast : Nat) (hfl : f ≤ l) (hl : l ≤ a.length) (hk : l - f ≤ dLast)
+    (hd : dLast ≤ a.length) (hov : dLast ≤ f ∨ l ≤ dLast) :
+    copyBackward a f l dLast = .ok (splice a (dLast - (l - f)) dLast (slice a f l), dLast - (l - f)) :=
+  copyBackward_spec a f l dLast hfl hl hk hd hov
+example : (0 ≤ 2 ∧ 2 ≤ [1, 2, 3, 4].length ∧ 2 - 0 ≤ 3 ∧ 3 ≤ [1, 2, 3, 4].length ∧ (3 ≤ 0 ∨ 2 ≤ 3)) := by decide
+
+/-! ## shift_left (both iterator branches) / shift_right (`Z`: the moved-from / vacated positions, unspecified) -/
+
+theorem shiftLeftRA_eq (P R S : List α) (n : Int) :
+    ∃ Z, shiftLeftRA (P ++ R ++ S) P.length (P.length + R.length) n
+          = .ok (P ++ ((Spec.shiftLeft R n).1 ++ Z) ++ S, P.length + (Spec.shiftLeft R n).2)
+        ∧ ((Spec.shiftLeft R n).1 ++ Z).length = R.length :=
+  shiftLeftRA_spec P R S n
+
+theorem shiftLeftFwd_eq (P R S : List α) (n : Int) :
+    ∃ Z, shiftLeftFwd (P ++ R ++ S) P.length (P.length + R.length) n
+          = .ok (P ++ ((Spec.shiftLeft R n).1 ++ Z) ++ S, P.length + (Spec.shiftLeft R n).2)
+        ∧ ((Spec.shiftLeft R n).1 ++ Z).length = R.length :=
+  shiftLeftFwd_spec P R S n
+
+/-- shift_right (as repaired): `[ret, last)` holds the kept elements, `ret = first + n`; no effect for `n ≤ 0`, `n ≥ len` -/
+theorem shiftRight_eq (dflt : α) (P R S : List α) (n : Int) :
+    ∃ Z, shiftRight dflt (P ++ R ++ S) P.length (P.length + R.length) n
+          = .ok (P ++ (Z ++ (Spec.shiftRight R n).1) ++ S, P.length + (Spec.shiftRight R n).2)
+        ∧ Z.length = (Spec.shiftRight R n).2
+        ∧ ((n ≤ 0 ∨ n ≥ (R.length : Int)) → Z ++ (Spec.shiftRight R n).1 = R) :=
+  shiftRight_spec dflt P R S n
+
+/-! ## unique_copy / unique / adjacent_find / is_sorted_until / is_sorted -/
+
+theorem uniqueCopy_eq (pred : α → α → Bool) (P R S : List α) :
+    uniqueCopy pred (P ++ R ++ S) P.length (P.length + R.length) = .ok (Spec.unique pred R) :=
+  uniqueCopy_spec pred P R S
+
+/-- `unique`: the first element of every group of consecutive equivalents, compacted to the front (tail `Z` unspecified) -/
+theorem unique_eq (pred : α → α → Bool) (P R S : List α) :
+    ∃ Z, unique pred (P ++ R ++ S) P.length (P.length + R.length)
+          = .ok (P ++ (Spec.unique pred R ++ Z) ++ S, P.length + (Spec.unique pred R).length)
+        ∧ (Spec.unique pred R ++ Z).length = R.length :=
+  unique_spec pred P R S
+
+theorem adjacentFind_eq (pred : α → α → Bool) (P R S : List α) :
+    adjacentFind pred (P ++ R ++ S) P.length (P.length + R.length) = .ok (P.length + Spec.adjacentFind pred R) :=
+  adjacentFind_spec pred P R S
+
+theorem isSortedUntil_eq (lt : α → α → Bool) (P R S : List α) :
+    isSortedUntil lt (P ++ R ++ S) P.length (P.length + R.length) = .ok (P.length + Spec.isSortedUntil lt R) :=
+  isSortedUntil_spec lt P R S
+
+/-- `is_sorted` is true exactly when no adjacent pair is out of order -/
+theorem isSorted_eq (lt : α → α → Bool) (P R S : List α) :
+    isSorted lt (P ++ R ++ S) P.length (P.length + R.length) = .ok (Spec.isSortedUntil lt R == R.length)
+    ∧ (Spec.isSortedUntil lt R = R.length ↔ ∀ i (h : i + 1 < R.length), lt R[i + 1] R[i] = false) :=
+  ⟨isSorted_spec lt P R S, isSortedUntil_eq_length_iff lt R⟩
+
+/-! ## partition / transform (binary) / binary_search / partial_sum -/
+
+/-- `partition`: a permutation of the range, every element satisfying `p` before every element that does not,
+    returns the partition point, context untouched -/
+theorem partition_eq (p : α → Bool) (P R S : List α) :
+    ∃ R', partition p (P ++ R ++ S) P.length (P.length + R.length) = .ok (P ++ R' ++ S, P.length + R.countP p)
+        ∧ R'.Perm R ∧ (∀ x ∈ R'.take (R.countP p), p x = true) ∧ (∀ x ∈ R'.drop (R.countP p), p x = false) :=
+  partition_spec p P R S
+
+theorem transform2_eq (op : α → α → α) (P R S Q T U : List α) (h : R.length ≤ T.length) :
+    transform2 op (P ++ R ++ S) P.length (P.length + R.length) (Q ++ T ++ U) Q.length (Q.length + T.length)
+      = .ok ((R.zip T).map (fun xy => op xy.1 xy.2)) :=
+  transform2_spec op P R S Q T U h
+example : [1, 2].length ≤ [1, 3, 4].length := by decide
+
+theorem binarySearch_eq (lt : α → α → Bool) (v : α) (P R S : List α)
+    (hp1 : Spec.isPartitioned (fun x => lt x v) R = true) (hp2 : Spec.isPartitioned (fun x => !lt v x) R = true) :
+    binarySearch lt v (P ++ R ++ S) P.length (P.length + R.length) = .ok (Spec.binarySearch lt v R) :=
+  binarySearch_spec lt v P R S hp1 hp2
+example : Spec.isPartitioned (fun x => decide (x < 2)) [1, 1, 2, 3] = true ∧
+    Spec.isPartitioned (fun x => !decide (2 < x)) [1, 1, 2, 3] = true := by decide
+
+theorem partialSum_eq (op : α → α → α) (P R S : List α) :
+    partialSum op (P ++ R ++ S) P.length (P.length + R.length) = .ok (Spec.partialSum op R) :=
+  partialSum_spec op P R S
+
+/-! ## search / find_end / search_n (any needle, any count; reads only inside the range, terminates) -/
+
+theorem search_eq (pred : α → α → Bool) (P R S s : List α) :
+    search pred (P ++ R ++ S) P.length (P.length + R.length) s = .ok (P.length + Spec.search pred R s) :=
+  search_spec pred P R S s
+
+theorem findEnd_eq (pred : α → α → Bool) (P R S s : List α) :
+    findEnd pred (P ++ R ++ S) P.length (P.length + R.length) s = .ok (P.length + Spec.findEnd pred R s) :=
+  findEnd_spec pred P R S s
+
+theorem searchN_eq (pred : α → α → Bool) (P R S : List α) (count : Int) (v : α) :
+    searchN pred (P ++ R ++ S) P.length (P.length + R.length) count v = .ok (P.length + Spec.searchN pred R count v) :=
+  searchN_spec pred P R S count v
+
+/-! ## sorting: sort = gnome_sort, nth_element, partial_sort, bubble_sort, exchange_sort
+    (hypothesis: `comp` induces a strict weak ordering, [alg.sorting]/3) -/
+
+/-- gnome_sort: the back-and-forth loop terminates within the model's fuel (measure: 2·inversions + distance to
+    `last`), never touches anything outside the range and leaves a sorted permutation of the input -/
+theorem gnomeSort_eq (lt : α → α → Bool) (hlt : StrictWeak lt) (P R S : List α) :
+    ∃ R', gnomeSort lt (P ++ R ++ S) P.length (P.length + R.length) = .ok (P ++ R' ++ S)
+        ∧ R'.Perm R ∧ Sorted lt R' :=
+  gnomeSort_spec lt hlt P R S
+example : StrictWeak (fun x y : Nat => decide (x < y)) := strictWeak_nat
+
+/-- `sort` is gnome_sort -/
+theorem sort_eq (lt : α → α → Bool) (hlt : StrictWeak lt) (P R S : List α) :
+    ∃ R', sort lt (P ++ R ++ S) P.length (P.length + R.length) = .ok (P ++ R' ++ S)
+        ∧ R'.Perm R ∧ Sorted lt R' :=
+  gnomeSort_spec lt hlt P R S
+example : StrictWeak (fun x y : Nat => decide (x < y)) := strictWeak_nat
+
+/-- nth_element sorts the whole range here: a sorted permutation satisfies [alg.nth.element] for every `nth` -/
+theorem nthElement_eq (lt : α → α → Bool) (hlt : StrictWeak lt) (P R S : List α) (nth : Nat) :
+    ∃ R', nthElement lt (P ++ R ++ S) P.length nth (P.length + R.length) = .ok (P ++ R' ++ S)
+        ∧ R'.Perm R ∧ Sorted lt R' :=
+  nthElement_spec lt hlt P R S nth
+example : StrictWeak (fun x y : Nat => decide (x < y)) := strictWeak_nat
+
+/-- partial_sort sorts the whole range here: a sorted permutation satisfies [partial.sort] for every `middle` -/
+theorem partialSort_eq (lt : α → α → Bool) (hlt : StrictWeak lt) (P R S : List α) (mid : Nat) :
+    ∃ R', partialSort lt (P ++ R ++ S) P.length mid (P.length + R.length) = .ok (P ++ R' ++ S)
+        ∧ R'.Perm R ∧ Sorted lt R' :=
+  partialSort_spec lt hlt P R S mid
+example : StrictWeak (fun x y : Nat => decide (x < y)) := strictWeak_nat
+
+theorem bubbleSort_eq (lt : α → α → Bool) (hlt : StrictWeak lt) (P R S : List α) :
+    ∃ R', bubbleSort lt (P ++ R ++ S) P.length (P.length + R.length) = .ok (P ++ R' ++ S)
+        ∧ R'.Perm R ∧ Sorted lt R' :=
+  bubbleSort_spec lt hlt P R S
+example : StrictWeak (fun x y : Nat => decide (x < y)) := strictWeak_nat
+
+theorem exchangeSort_eq (lt : α → α → Bool) (hlt : StrictWeak lt) (P R S : List α) :
+    ∃ R', exchangeSort lt (P ++ R ++ S) P.length (P.length + R.length) = .ok (P ++ R' ++ S)
+        ∧ R'.Perm R ∧ Sorted lt R' :=
+  exchangeSort_spec lt hlt P R S
+example : StrictWeak (fun x y : Nat => decide (x < y)) := strictWeak_nat
+
+/-! ## stable sorting: stable_sort = insertion_sort -/
+
+/-- insertion_sort: exactly the stable sorted permutation (`List.mergeSort`, the unique sorted permutation that keeps
+    equivalent elements in their original order), context untouched -/
+theorem insertionSort_eq (lt : α → α → Bool) (hlt : StrictWeak lt) (P R S : List α) :
+    insertionSort lt (P ++ R ++ S) P.length (P.length + R.length) = .ok (P ++ Spec.stableSort lt R ++ S) :=
+  insertionSort_spec lt hlt P R S
+example : StrictWeak (fun x y : Nat => decide (x < y)) := strictWeak_nat
+
+theorem stableSort_eq (lt : α → α → Bool) (hlt : StrictWeak lt) (P R S : List α) :
+    stableSort lt (P ++ R ++ S) P.length (P.length + R.length) = .ok (P ++ Spec.stableSort lt R ++ S) :=
+  insertionSort_spec lt hlt P R S
+example : StrictWeak (fun x y : Nat => decide (x < y)) := strictWeak_nat
+
+/-- what the spec of the stable sorts means: a sorted permutation in which every class of equivalent elements
+    appears in its original order — and it is the only such list -/
+theorem stableSort_characterisation (lt : α → α → Bool) (hlt : StrictWeak lt) (R : List α) :
+    (Spec.stableSort lt R).Perm R ∧ Sorted lt (Spec.stableSort lt R)
+    ∧ (∀ x, (Spec.stableSort lt R).filter (Spec.equiv lt x) = R.filter (Spec.equiv lt x))
+    ∧ (∀ L : List α, L.Perm R → Sorted lt L → (∀ x, L.filter (Spec.equiv lt x) = R.filter (Spec.equiv lt x)) →
+        L = Spec.stableSort lt R) :=
+  ⟨stableSort_perm lt R, stableSort_sorted hlt R, stableSort_filter hlt R, fun L hp hs hf => stableSort_unique hlt L R hp hs hf⟩
+example : StrictWeak (fun x y : Nat => decide (x < y)) := strictWeak_nat
+
+/-! ## min_element / max_element / minmax_element (first smallest, first largest; minmax: first smallest, LAST largest) -/
+
+theorem minElement_eq (lt : α → α → Bool) (hlt : StrictWeak lt) (P R S : List α) :
+    minElement lt (P ++ R ++ S) P.length (P.length + R.length) = .ok (P.length + Spec.minElement lt R) :=
+  minElement_spec lt hlt P R S
+example : StrictWeak (fun x y : Nat => decide (x < y)) := strictWeak_nat
+
+theorem maxElement_eq (lt : α → α → Bool) (hlt : StrictWeak lt) (P R S : List α) :
+    maxElement lt (P ++ R ++ S) P.length (P.length + R.length) = .ok (P.length + Spec.maxElement lt R) :=
+  maxElement_spec lt hlt P R S
+example : StrictWeak (fun x y : Nat => decide (x < y)) := strictWeak_nat
+
+theorem minmaxElement_eq (lt : α → α → Bool) (hlt : StrictWeak lt) (P R S : List α) :
+    minmaxElement lt (P ++ R ++ S) P.length (P.length + R.length)
+      = .ok (P.length + Spec.minElement lt R, P.length + Spec.maxElementLast lt R) :=
+  minmaxElement_spec lt hlt P R S
+example : StrictWeak (fun x y : Nat => decide (x < y)) := strictWeak_nat
+
+/-! ## includes / set_difference / set_intersection / set_symmetric_difference / set_union
+    (preconditions [alg.set.operations]: strict weak order, both ranges sorted; the specs are the standard's
+    multiplicity rules: of `m` equivalents in the first and `n` in the second range …) -/
+
+theorem setDifference_eq (lt : α → α → Bool) (hlt : StrictWeak lt) (P R S Q T U : List α)
+    (hR : Sorted lt R) (hT : Sorted lt T) :
+    setDifference lt (P ++ R ++ S) P.length (P.length + R.length) (Q ++ T ++ U) Q.length (Q.length + T.length)
+      = .ok (Spec.setDifference lt R T) := by
+  rw [setDifference_loop, diffL_eq lt hlt R T hR hT]
+example : StrictWeak (fun x y : Nat => decide (x < y)) ∧ Sorted (fun x y : Nat => decide (x < y)) [1, 2, 2] ∧
+    Sorted (fun x y : Nat => decide (x < y)) [2, 3] := ⟨strictWeak_nat, by simp [Sorted], by simp [Sorted]⟩
+
+theorem setIntersection_eq (lt : α → α → Bool) (hlt : StrictWeak lt) (P R S Q T U : List α)
+    (hR : Sorted lt R) (hT : Sorted lt T) :
+    setIntersection lt (P ++ R ++ S) P.length (P.length + R.length) (Q ++ T ++ U) Q.length (Q.length + T.length)
+      = .ok (Spec.setIntersection lt R T) := by
+  rw [setIntersection_loop, interL_eq lt hlt R T hR hT]
+example : StrictWeak (fun x y : Nat => decide (x < y)) ∧ Sorted (fun x y : Nat => decide (x < y)) [1, 2, 2] ∧
+    Sorted (fun x y : Nat => decide (x < y)) [2, 3] := ⟨strictWeak_nat, by simp [Sorted], by simp [Sorted]⟩
+
+theorem setSymmetricDifference_eq (lt : α → α → Bool) (hlt : StrictWeak lt) (P R S Q T U : List α)
+    (hR : Sorted lt R) (hT : Sorted lt T) :
+    setSymmetricDifference lt (P ++ R ++ S) P.length (P.length + R.length) (Q ++ T ++ U) Q.length (Q.length + T.length)
+      = .ok (Spec.setSymmetricDifference lt R T) := by
+  rw [setSymmetricDifference_loop, symL_eq lt hlt R T hR hT]
+example : StrictWeak (fun x y : Nat => decide (x < y)) ∧ Sorted (fun x y : Nat => decide (x < y)) [1, 2, 2] ∧
+    Sorted (fun x y : Nat => decide (x < y)) [2, 3] := ⟨strictWeak_nat, by simp [Sorted], by simp [Sorted]⟩
+
+theorem setUnion_eq (lt : α → α → Bool) (hlt : StrictWeak lt) (P R S Q T U : List α)
+    (hR : Sorted lt R) (hT : Sorted lt T) :
+    setUnion lt (P ++ R ++ S) P.length (P.length + R.length) (Q ++ T ++ U) Q.length (Q.length + T.length)
+      = .ok (Spec.setUnion lt R T) := by
+  rw [setUnion_loop, unionL_eq lt hlt R T hR hT]
+example : StrictWeak (fun x y : Nat => decide (x < y)) ∧ Sorted (fun x y : Nat => decide (x < y)) [1, 2, 2] ∧
+    Sorted (fun x y : Nat => decide (x < y)) [2, 3] := ⟨strictWeak_nat, by simp [Sorted], by simp [Sorted]⟩
+
+/-- `includes(first1,last1,first2,last2)`: every element of the second range, with multiplicity, is in the first -/
+theorem includes_eq (lt : α → α → Bool) (hlt : StrictWeak lt) (P R S Q T U : List α)
+    (hR : Sorted lt R) (hT : Sorted lt T) :
+    includes lt (P ++ R ++ S) P.length (P.length + R.length) (Q ++ T ++ U) Q.length (Q.length + T.length)
+      = .ok (Spec.includes lt R T) := by
+  rw [includes_loop, inclL_eq lt hlt R T hR hT]
+example : StrictWeak (fun x y : Nat => decide (x < y)) ∧ Sorted (fun x y : Nat => decide (x < y)) [1, 2, 2] ∧
+    Sorted (fun x y : Nat => decide (x < y)) [2, 3] := ⟨strictWeak_nat, by simp [Sorted], by simp [Sorted]⟩
+
+/-! ## is_permutation (hypothesis: the binary predicate is an equivalence relation, [alg.is.permutation]) -/
+
+/-- 4-iterator overload (as repaired: lengths compared for every iterator category) -/
+theorem isPermutation4_eq (eq : α → α → Bool) (heq : EquivB eq) (P R S Q T U : List α) :
+    isPermutation4 eq (P ++ R ++ S) P.length (P.length + R.length) (Q ++ T ++ U) Q.length (Q.length + T.length)
+      = .ok (Spec.isPermutation eq R T) :=
+  isPermutation4_spec eq heq P R S Q T U
+example : EquivB (fun x y : Nat => x == y) := equivB_nat
+
+/-- 3-iterator overload: the second range is taken to have the length of the first (precondition: it has at least
+    that many elements) -/
+theorem isPermutation3_eq (eq : α → α → Bool) (heq : EquivB eq) (P R S Q T U : List α) (h : R.length ≤ T.length) :
+    isPermutation3 eq (P ++ R ++ S) P.length (P.length + R.length) (Q ++ T ++ U) Q.length (Q.length + T.length)
+      = .ok (Spec.isPermutation eq R (T.take R.length)) :=
+  isPermutation3_spec eq heq P R S Q T U h
+example : EquivB (fun x y : Nat => x == y) ∧ [1, 2].length ≤ [2, 1, 3].length := ⟨equivB_nat, by decide⟩
+
+/-- for `==` on a type with lawful equality the spec of is_permutation is `List.Perm` -/
+theorem isPermutation_spec_iff_perm [BEq α] [LawfulBEq α] (R T : List α) :
+    Spec.isPermutation (fun x y => x == y) R T = true ↔ R.Perm T :=
+  isPermutation_iff_perm R T
+
+/-! ## inplace_merge / merge_sort -/
+
+/-- inplace_merge on `[first, middle) = A`, `[middle, last) = B`: the stable merge (`List.merge`, ties: `A` first),
+    context untouched, terminates within the model's fuel.  The standard requires both runs to be sorted; the
+    equation with `List.merge` only needs the second one to be. -/
+theorem inplaceMerge_eq (lt : α → α → Bool) (P A B S : List α) (hB : Sorted lt B) :
+    inplaceMerge lt (P ++ (A ++ B) ++ S) P.length (P.length + A.length) (P.length + (A ++ B).length)
+      = .ok (P ++ Spec.merge lt A B ++ S) := by
+  unfold inplaceMerge
+  have e : P ++ (A ++ B) ++ S = P ++ A ++ B ++ S := by simp
+  rw [e, Nat.add_sub_cancel_left]
+  exact mergeSort_loop lt S P.length (P.length + (A ++ B).length) _ P A B (Nat.le_refl _)
+    (by simp only [List.length_append]; omega) hB (by simp only [List.length_append]; omega)
+example : Sorted (fun x y : Nat => decide (x < y)) [1, 2, 2] := by simp [Sorted]
+
+/-- inplace_merge of two sorted runs of a strict weak order yields a sorted permutation that keeps equivalent
+    elements in their original order (first run before second): it is the stable sort of the whole range -/
+theorem inplaceMerge_stable (lt : α → α → Bool) (hlt : StrictWeak lt) (P A B S : List α)
+    (hA : Sorted lt A) (hB : Sorted lt B) :
+    inplaceMerge lt (P ++ (A ++ B) ++ S) P.length (P.length + A.length) (P.length + (A ++ B).length)
+      = .ok (P ++ Spec.stableSort lt (A ++ B) ++ S) := by
+  rw [inplaceMerge_eq lt P A B S hB]
+  congr 3
+  refine stableSort_unique hlt _ _ (List.merge_perm_append _) (mergeSort_merge_sorted lt hlt A B hA hB) ?_
+  intro x
+  rw [show Spec.merge lt A B = List.merge A B (fun x y => !lt y x) from rfl,
+    mergeSort_merge_filter lt hlt x A B hA hB, List.filter_append]
+example : StrictWeak (fun x y : Nat => decide (x < y)) ∧ Sorted (fun x y : Nat => decide (x < y)) [1, 2, 2] ∧
+    Sorted (fun x y : Nat => decide (x < y)) [2, 3] := ⟨strictWeak_nat, by simp [Sorted], by simp [Sorted]⟩
+
+/-- merge_sort (recursive halves + inplace_merge): exactly the stable sorted permutation, the recursion never runs
+    out of fuel, context untouched -/
+theorem mergeSort_eq (lt : α → α → Bool) (hlt : StrictWeak lt) (P R S : List α) :
+    mergeSort lt (P ++ R ++ S) P.length (P.length + R.length) = .ok (P ++ Spec.stableSort lt R ++ S) :=
+  mergeSort_spec lt hlt P R S
+example : StrictWeak (fun x y : Nat => decide (x < y)) := strictWeak_nat
+
+/-- what a sorted range gives for nth_element / partial_sort at any split point `k`: both parts are sorted and no
+    element behind the split is less than one before it ([alg.nth.element], [partial.sort] postconditions) -/
+theorem sorted_split (lt : α → α → Bool) (R' : List α) (hs : Sorted lt R') (k : Nat) :
+    Sorted lt (R'.take k) ∧ Sorted lt (R'.drop k) ∧ ∀ x ∈ R'.take k, ∀ y ∈ R'.drop k, lt y x = false := by
+  unfold Sorted at *
+  rw [← List.take_append_drop k R', List.pairwise_append] at hs
+  exact hs
+example : Sorted (fun x y : Nat => decide (x < y)) [1, 2, 2] := by simp [Sorted]
 
 end Tetl.C06.Props
